@@ -208,6 +208,7 @@ pub fn cert_space(conformant_only: bool, with_hash_key_ids: bool) -> Space<CertS
         ("client,server", vec![EkuSpec::ClientAuth, EkuSpec::ServerAuth]),
         ("all seven", vec![EkuSpec::Any, EkuSpec::ServerAuth, EkuSpec::ClientAuth, EkuSpec::CodeSigning, EkuSpec::EmailProtection, EkuSpec::TimeStamping, EkuSpec::OcspSigning]),
         ("duplicate", vec![EkuSpec::ServerAuth, EkuSpec::ServerAuth]),
+        ("duplicates among four", vec![EkuSpec::ServerAuth, EkuSpec::ClientAuth, EkuSpec::ServerAuth, EkuSpec::CodeSigning, EkuSpec::OcspSigning, EkuSpec::ClientAuth]),
     ];
     for (l, v) in ekus {
         d = d.v(l, move |s: &mut CertState| s.ekus = v.clone());
